@@ -216,6 +216,7 @@ class RecordingDul(object):
 
 
 _MAKE_LOCK = __import__('threading').Lock()
+_AE = []
 
 
 def make_assoc(max_pdu_length, lazy=False):
@@ -225,10 +226,12 @@ def make_assoc(max_pdu_length, lazy=False):
     from pynetdicom2 import asceprovider, applicationentity
     rec = RecordingDul(lazy)
     with _MAKE_LOCK:
+        if not _AE:
+            _AE.append(applicationentity.ClientAE('VERIF'))
         saved = asceprovider.dulprovider
         asceprovider.dulprovider = types.SimpleNamespace(DULServiceProvider=lambda *a, **k: rec)
         try:
-            assoc = asceprovider.Association(applicationentity.ClientAE('VERIF'), None, max_pdu_length)
+            assoc = asceprovider.Association(_AE[0], None, max_pdu_length)
         finally:
             asceprovider.dulprovider = saved
     assoc.association_established = True
